@@ -483,7 +483,12 @@ def _read_request(
         request_shm = owned_shm = attach_shm(custom_metadata)
     try:
         if request_shm is not None:
-            batch, _, release_shm = resolve_shm_batch(batch, custom_metadata, request_shm)
+            try:
+                batch, _, release_shm = resolve_shm_batch(batch, custom_metadata, request_shm)
+            except (ValueError, OSError, pa.ArrowException) as exc:
+                # Offset / length that are not numbers, or that do not delimit
+                # a serialized batch inside the segment: a malformed request.
+                raise RpcError("ProtocolError", f"Cannot resolve shared-memory request batch: {exc}", "") from exc
         if len(batch.schema) > 0 and batch.num_rows != 1:
             raise RpcError(
                 "ProtocolError",
